@@ -418,13 +418,14 @@ func (hs *clientHandshakeState) handshake() error {
 		c.hsState.Store(int32(stateWaiting))
 		c.retransmitTimer.reset()
 
-		// 创建会话
-		if err = hs.createNewSession(); err != nil {
+		// 读取 Flight 6（CCS + Finished），支持超时重传
+		if err = hs.readFinished(c.serverFinished[:]); err != nil {
 			return err
 		}
 
-		// 读取 Flight 6（CCS + Finished），支持超时重传
-		if err = hs.readFinished(c.serverFinished[:]); err != nil {
+		// 创建会话：只有在验证了服务端的 Finished 消息之后才缓存新会话，
+		// 握手以致命错误结束的会话不得被缓存，更不得在之后的连接中被重用。
+		if err = hs.createNewSession(); err != nil {
 			return err
 		}
 	}
